@@ -1,21 +1,65 @@
-(* Properties/C01.v — cache transparency (label: partial until the Core simulation
-   theorem is in place; see DESIGN.md 0.3).  Collected here are the theorems the
-   transparency argument rests on and that are already proved about the
-   mechanism model: deciding hit or miss has no side effect; a hit does not call
-   the function and serves the recorded value; nothing that failed (raised or
-   rejected in setup) is ever served; a changed version is never served, nor any
-   caller above it; foreign files are never touched; a refused build changes
-   nothing.  The equality with the from-scratch execution itself is decided on
-   the implementation by T3 against Spec/Ref.v on every step of every generated
-   history, and by exact agreement with the Core model (Model/Core.v: the cache
-   logic on the reference tree). *)
-From Coq Require Import List String Bool.
+(* Properties/C01.v — cache transparency.
+   MAIN THEOREM (C01_build_transparent): a build of the Core model (Model/Core.v: the
+   cache logic of file_builder.py — lookup, replay, adoption of recorded subtrees — on
+   the reference tree) and the from-scratch build of Spec/Ref.v, started on the same
+   tree with the same previous cache, have the same outcome (value or exception), final
+   trees that are equal up to modification time / inode of regular files, and the log of
+   the Core build (functions invoked, answers given) is a subsequence of the reference
+   log — for every program, every tree and every previous cache, under these
+   hypotheses, all defined in Spec/Faithful.v and shown satisfiable in
+   Proofs/CoreLaws7.v / CoreLawsEx.v:
+     Obeys / Respects   names denote functions; build_file functions do not distinguish
+                        JSON-equal arguments (documented obligations of user code)
+     cache_wf           shape of the registered records (what Cache guarantees)
+     faithful_cache     every servable record of the previous build is a trace of its
+                        function (what the previous build guarantees; CoreLawsEx.v checks
+                        it on the records Core itself produces).  NOT covered: records in
+                        which only FAILED nested targets lie below a later/enclosing
+                        target (bf_end returns None) — label: partial for those caches
+     kp_init / kp_new   the METADATA assumption (size + mtime determine content) and
+                        injectivity of the hash (the model's hash_of is injective)
+   Core is tied to the implementation by exact correspondence (result, invocation log,
+   answers, tree) on every generated history (T2, Model/CoreOracle.v); the step from the
+   mechanism model (BuildDirs/CreatedFiles counters) to Core is NOT a theorem.
+   The other theorems are about the mechanism model: deciding hit or miss has no side
+   effect; a hit does not call the function; nothing that failed or was rejected is ever
+   served; a changed version is never served, nor any caller above it; foreign files are
+   never touched. *)
+From Coq Require Import List String Bool NArith.
 From FB.Base Require Import PyVal Fs.
 From FB.Gen Require Import JsonUtilGen.
 From FB.Spec Require Import Prog.
 From FB.Model Require Import Types Monad CreatedFiles SimpleOps Builder Persist Build Run Frame.
-From FB.Proofs Require Import ReplayLaws BuildFileLaws FrameLaws CleanLaws.
+From FB.Spec Require Import Ref Oracle Faithful.
+From FB.Model Require Import Core CoreOracle.
+From FB.Proofs Require Import ReplayLaws BuildFileLaws FrameLaws CleanLaws CoreLaws2 CoreLaws5 CoreLaws6 CoreLaws7.
 Import ListNotations.
+
+Theorem C01_build_transparent : forall (kp : kappa) (F : ftable) fs cf old vers clock nextid root,
+  Obeys F root -> Respects F -> cache_wf old -> faithful_cache kp F old vers ->
+  kp_init kp fs -> kp_new kp clock -> fs_wf fs ->
+  let cr := core_build fs cf old vers clock nextid root in
+  let rr := ref_build fs cf (prev_of_cache old) clock nextid root in
+  cr_outcome cr = rr_outcome rr /\ tree_equiv (cr_tree cr) (rr_tree rr) /\ sublog (cr_log cr) (rr_log rr).
+Proof. exact build_transparent. Qed.
+
+(* the same for any sub-program from any pair of related states (the induction behind it) *)
+Theorem C01_run_transparent : forall kp F old vers clock0 pr,
+  Respects F -> cache_wf old -> faithful_cache kp F old vers -> kp_new kp clock0 -> Obeys F pr ->
+  forall tgt pend subs s r s' out pend' subs' r' out_r pend_r,
+    sim s r -> KInv kp old vers clock0 s -> RInv' tgt r -> sublog (k_log s) (r_log r) ->
+    core_run pr tgt pend subs s = (s', (out, pend', subs')) ->
+    ref_run pr tgt pend r = (r', (out_r, pend_r)) ->
+    out = out_r /\ pend' = pend_r /\ sim s' r' /\ sublog (k_log s') (r_log r') /\
+    KInv kp old vers clock0 s' /\ RInv' tgt r'.
+Proof. exact T1_full. Qed.
+
+(* the hypotheses are satisfiable: a content oracle read off the tree, and a concrete instance
+   (a previous cache, a tree on which the replay succeeds) *)
+Theorem C01_oracle_exists : forall fs clock,
+  (forall p f, lookup fs p = Some (NFile f) -> (f_mtime f <= clock)%N) ->
+  kp_init (kp_of fs) fs /\ kp_new (kp_of fs) clock.
+Proof. intros fs clock H. split; [apply kp_of_init | apply kp_of_new; exact H]. Qed.
 
 Theorem C01_lookup_has_no_side_effect : forall p f a k w w' r,
   build_file_cache_lookup p f a k w = (w', r) -> same_but_view w w'.
